@@ -105,14 +105,29 @@ def analyse_root(spec):
                     A.cuts.add((c["file"], i))
     import importlib
 
+    try:
+        from fontTools.designspaceLib import DesignSpaceDocument as _DS
+    except Exception:  # pragma: no cover
+        _DS = None
     if spec["kind"] == "compile":
+        import inspect
+
         import ufo2ft
 
-        A.add_root(getattr(ufo2ft, spec["name"]), [{A.SRC}], {})
+        fn = getattr(ufo2ft, spec["name"])
+        # input domain of the public function, from its signature: `designSpaceDoc` is a DesignSpaceDocument whose sources
+        # carry UFO fonts; `ufo` / `ufos` is a UFO font / a list of UFO fonts
+        first = next(iter(inspect.signature(fn).parameters), "")
+        if _DS is not None:
+            A.source_model("designspace" if first.lower().startswith("designspace") else "ufo", (_DS,))
+        A.add_root(fn, [{A.SRC}], {})
     elif spec["kind"] == "filter":
         mod = importlib.import_module(spec["module"])
         klass = getattr(mod, spec["name"])
         inst = A.new_instance(klass)
+        if _DS is not None:
+            A.source_model("ufo", (_DS,))  # a filter is called with a UFO font and a glyph set
+            A.src_not[A.GS] = (_DS,)
         A.add_root(klass.__call__, [{inst}, {A.SRC}, {A.GS}], {})
         init = klass.__init__
         A.add_root(init, [{inst}], {})
